@@ -93,7 +93,7 @@ def targets(file, path, ctx):
     if len(path) >= 2:
         parent = PKG + '.' + '.'.join(path[:-1])
         t.update(parent=parent, sibling=parent + '.Sib', esibling=parent + '.SE',
-                 shadow=f'{PKG}.{path[-1]}.Inner', eshadow=f'{PKG}.{path[-1]}.IE')
+                 shadow=f'{PKG}.{path[-1]}.Kid', eshadow=f'{PKG}.{path[-1]}.KE')
     if len(path) >= 3:
         t['root'] = PKG + '.' + path[0]
     if file == 'b':
@@ -172,7 +172,9 @@ def support(file):
     X = 'N' if file == 'a' else 'M'
     before = dict(name=f'Before{F}', fields=[TAG, dict(name='note', number=2)],
                   messages=[dict(name='Inner', fields=[TAG], enums=[mk_enum('Deep', 'DEEP')])])
-    hosts = [dict(name=f'{X}{j}', fields=[TAG], messages=[dict(name='Inner', fields=[TAG])], enums=[mk_enum('IE', 'IE')])
+    # top-level messages named like the nested subjects (N2..N4 / M2..M4), with children named like the subject's own
+    # children: the "shadow" reference targets
+    hosts = [dict(name=f'{X}{j}', fields=[TAG], messages=[dict(name='Kid', fields=[TAG])], enums=[mk_enum('KE', 'KE')])
              for j in (2, 3, 4)]
     return [mk_enum(f'Color{F}', f'COLOR_{F}')], [before] + hosts, [dict(name=f'After{F}', fields=[TAG])]
 
@@ -363,7 +365,7 @@ def main(chk, args):
     quick = chk.tier == 'quick'
     rnd = random.Random(chk.seed)
     reserved = set(reserved_names())
-    pool = ThreadPoolExecutor(8)
+    pool = ThreadPoolExecutor(32)
     import time as _time
     _start = _time.time()
     timing = chk.extra.setdefault('timing_s', {})
@@ -376,6 +378,11 @@ def main(chk, args):
                                                       workers=8 if quick else 16))]
     jobs.append(('Types liveness (1 field)', pool.submit(tlc.run, 'Types', cfg_text('Types.live.cfg'), deadlock=False,
                                                          timeout=1500, workers=4)))
+    if not quick:
+        jobs.append(('Types model check (mid: 2 fields, 2 ops, wider alphabets)',
+                     pool.submit(tlc.run, 'Types', cfg_text('Types.full.cfg'), deadlock=False, timeout=2400, workers=8)))
+        jobs.append(('Types model check (deep: small scope, 3 ops)',
+                     pool.submit(tlc.run, 'Types', cfg_text('Types.deep.cfg'), deadlock=False, timeout=2400, workers=6)))
     muts = MUTANTS if not quick else [MUTANTS[(chk.seed + k) % len(MUTANTS)] for k in (0, 4, 8)]
     # the mutants that change what is on the wire must be caught by the behavioural invariants (round trip, presence,
     # oneof exclusivity), so the declaration-equality invariant is switched off for them
@@ -449,7 +456,7 @@ def main(chk, args):
         if s['kind'] == 'message':
             for f in s['fields']:
                 if f['ref'] in RISKY_MSG:
-                    return RISKY_MSG[f['ref']]
+                    return RISKY_MSG[f['ref']] + ('/own-kid' if s['ctx']['kids'] else '/no-kid')
         if s['kind'] == 'enum' and any(v['number'] < 0 for v in s['evals']):
             return 'enum-negative-number'
         return None
@@ -663,10 +670,6 @@ def main(chk, args):
     # the model-checking runs started at the beginning
     for label, j in jobs:
         chk.add_tlc(j.result(), label)
-    if not quick:
-        for label, name in (('Types model check (mid: 2 fields, 2 ops, wider alphabets)', 'Types.full.cfg'),
-                            ('Types model check (deep: small scope, 3 ops)', 'Types.deep.cfg')):
-            chk.add_tlc(tlc.run('Types', cfg_text(name), deadlock=False, timeout=2400), label)
     rejected_mutants = {}
     for m, j in mjobs:
         r = j.result()
